@@ -41,6 +41,7 @@ func init() {
 
 func runC05(c *eng.Ctx) {
 	p := c.P
+	everyPageFileIsLoaded(c)
 	replicaLogTestAndAppendAtomic(c)
 
 	// ---- 1. ATOMIC: one critical section for the whole append -------------------------------
